@@ -7,6 +7,9 @@ import (
 	"os"
 	"os/exec"
 	"path/filepath"
+	"regexp"
+	"sort"
+	"strconv"
 	"strings"
 	"sync"
 	"time"
@@ -218,6 +221,13 @@ func discharge(o *Obligation, dir string, timeoutS int, which []solverSpec) {
 			break
 		}
 	}
+	if final == nil && !o.Cover && !o.noSplit {
+		// case split on the "append fits in place" conditions of the most recent appends: the merged
+		// ite(fits, old array, fresh array) base defeats quantifier instantiation, each case is easy
+		if r := splitRetry(o, txt, dir, timeoutS, which); r != nil {
+			final = r
+		}
+	}
 	if final == nil {
 		// no definite answer
 		best := all[0]
@@ -427,4 +437,59 @@ func coverPass(u *Unit, obls []*Obligation, dir string) {
 		}
 		o.GuardCover = answers[idx]
 	}
+}
+
+var appfitsRe = regexp.MustCompile(`appfits![0-9]+`)
+
+// splitRetry re-runs an undecided query once per truth assignment of (at most) the two most recent
+// append-fits conditions. All cases unsat = unsat (the split is exhaustive); one case sat = sat.
+func splitRetry(o *Obligation, txt string, dir string, timeoutS int, which []solverSpec) *solveResult {
+	idx := strings.LastIndex(txt, "(check-sat)")
+	if idx < 0 {
+		return nil
+	}
+	seen := map[string]bool{}
+	var names []string
+	for _, m := range appfitsRe.FindAllString(txt[:idx], -1) {
+		if !seen[m] {
+			seen[m] = true
+			names = append(names, m)
+		}
+	}
+	if len(names) == 0 {
+		return nil
+	}
+	sort.Slice(names, func(i, j int) bool {
+		a, _ := strconv.Atoi(names[i][len("appfits!"):])
+		b, _ := strconv.Atoi(names[j][len("appfits!"):])
+		return a > b
+	})
+	if len(names) > 2 {
+		names = names[:2]
+	}
+	total := 0.0
+	for mask := 0; mask < 1<<len(names); mask++ {
+		var extra strings.Builder
+		for i, n := range names {
+			if mask&(1<<i) != 0 {
+				extra.WriteString("(assert " + n + ")\n")
+			} else {
+				extra.WriteString("(assert (not " + n + "))\n")
+			}
+		}
+		sub := &Obligation{id: o.id, unit: o.unit, rawSMT: txt[:idx] + extra.String() + txt[idx:], noSplit: true}
+		subdir := filepath.Join(dir, fmt.Sprintf("split%d", mask))
+		_ = os.MkdirAll(subdir, 0o777)
+		discharge(sub, subdir, timeoutS, which)
+		total += sub.TimeS
+		switch sub.Status {
+		case "discharged":
+			continue
+		case "violated":
+			return &solveResult{status: "sat", solver: "split:" + sub.Solver, secs: total, out: sub.Output}
+		default:
+			return nil
+		}
+	}
+	return &solveResult{status: "unsat", solver: "split:z3-new/z3/cvc5", secs: total, out: "unsat (case split on " + strings.Join(names, ",") + ")"}
 }
